@@ -83,7 +83,11 @@ func replay(raw json.RawMessage) (string, bool) {
 			opts = append(opts, lockResolver(omni, nil))
 		}
 		res := roundTripBufLock(context.Background(), c.Text, opts...)
+		judgeLockAcceptance(col, c, res)
 		if !res.accepted {
+			if len(col.violations) > 0 {
+				break
+			}
 			return "the document is rejected by the reader now: " + res.rejectWhy, false
 		}
 		reportRoundTrip(col, head.Kind, res, nil)
